@@ -8,7 +8,7 @@ use std::panic::{catch_unwind, AssertUnwindSafe};
 use std::rc::Rc;
 use std::sync::Arc;
 
-use pie::resource::map::{GetGlobalMap, MapEqualsChecker, MapKey};
+use pie::resource::map::{GetGlobalMap, MapEqualsChecker, MapKey, MapKeyObjToObj, MapValueObj};
 use pie::task::{AlwaysConsistent, EqualsChecker, ErrEqualsChecker, OkEqualsChecker, ResultChecker};
 use pie::tracker::event::{Event, EventTracker};
 use pie::tracker::{CompositeTracker, Tracker};
@@ -164,13 +164,51 @@ fn $name<RS: ResourceState<$K>>(st: &mut RS, key: $K, t: &[&str]) -> Option<Stri
 key_op_impl!(key_op_a, KA);
 key_op_impl!(key_op_b, KB);
 
+// object flavour: MapKeyObjToObj (type-erased keys and values); zero-sized key/value types ZK2/ZK3, ZV2/ZV3
+#[derive(Clone, PartialEq, Eq, Hash, Debug)] pub struct ZK2;
+#[derive(Clone, PartialEq, Eq, Hash, Debug)] pub struct ZK3;
+#[derive(Clone, PartialEq, Eq, Hash, Debug)] pub struct ZV2;
+#[derive(Clone, PartialEq, Eq, Hash, Debug)] pub struct ZV3;
+fn okey(t: u32, n: u32) -> Option<MapKeyObjToObj> {
+  Some(match t { 0 => MapKeyObjToObj::from(KA(n)), 1 => MapKeyObjToObj::from(KB(n)), 2 => MapKeyObjToObj::from(ZK2), 3 => MapKeyObjToObj::from(ZK3), _ => return None })
+}
+fn oval(t: u32, n: u32) -> Option<Box<dyn MapValueObj>> {
+  Some(match t { 0 => Box::new(n as i64), 1 => Box::new(format!("{}", n)), 2 => Box::new(ZV2), 3 => Box::new(ZV3), _ => return None })
+}
+fn oshow(v: Option<&Box<dyn MapValueObj>>) -> String {
+  match v {
+    None => "none".into(),
+    Some(b) => {
+      let a = b.as_ref().as_any();
+      if let Some(n) = a.downcast_ref::<i64>() { format!("some:0:{}", n) }
+      else if let Some(s) = a.downcast_ref::<String>() { format!("some:1:{}", s) }
+      else if a.downcast_ref::<ZV2>().is_some() { "some:2:0".into() }
+      else if a.downcast_ref::<ZV3>().is_some() { "some:3:0".into() }
+      else { "some:?".into() }
+    }
+  }
+}
+
 pub fn run_lib14(lines: &[String]) -> Vec<String> {
   let mut pie = Pie::default();
   let mut out = Vec::new();
+  let mut ostamps: Vec<Option<Box<dyn MapValueObj>>> = Vec::new();
   for l in lines {
     let t: Vec<&str> = l.split(' ').collect();
     let r: Option<String> = (|| {
       if t.len() < 2 { return None; }
+      if t[0].starts_with('o') {
+        let key = okey(t.get(1)?.parse().ok()?, t.get(2)?.parse().ok()?)?;
+        let state = pie.resource_state_mut::<MapKeyObjToObj>();
+        return match (t[0], t.len()) {
+          ("oins", 5) => { let v = oval(t[3].parse().ok()?, t[4].parse().ok()?)?; let old = state.get_global_map_mut().insert(key, v); Some(oshow(old.as_ref())) }
+          ("orem", 3) => { let old = state.get_global_map_mut().remove(&key); Some(oshow(old.as_ref())) }
+          ("oread", 3) => { let v = key.read(state).ok()?; Some(oshow(v)) }
+          ("ostamp", 3) => { let s = MapEqualsChecker.stamp(&key, state).ok()?; let r = format!("s{} {}", ostamps.len(), oshow(s.as_ref())); ostamps.push(s); Some(r) }
+          ("ocheck", 4) => { let i: usize = t[3].parse().ok()?; let s = ostamps.get(i)?; Some(cons(MapEqualsChecker.check(&key, state, s).ok()?.is_none()).to_string()) }
+          _ => None,
+        };
+      }
       if ["get", "getmut", "set", "setboxed", "gosd", "getboxed"].contains(&t[0]) {
         return match t[1] { "A" => state_op::<KA, _>(pie.resource_state_mut::<KA>(), &t), "B" => state_op::<KB, _>(pie.resource_state_mut::<KB>(), &t),
           "M" => state_op::<MK, _>(pie.resource_state_mut::<MK>(), &t), _ => None };
